@@ -41,6 +41,7 @@ DECIDING = {
     "owner_left_with_tasks_running": "owner context left while tasks were running (must wait, not cancel)",
     "exceptions_swallowed": "handler verdict truthy",
     "exceptions_propagated": "handler verdict falsy / no handler",
+    "exceptions_from_task_context_teardown": "exception escaping through the teardown of the task's own context",
     "spawn_attempts_on_finished_factory": "spawn attempted after the factory finished",
 }
 ASSUMPTIONS = ["exception handlers do not raise; at most one propagating failure per program (after it only surfacing is checked)"]
